@@ -2,6 +2,7 @@ import KV.ImportsProofs
 import KV.TypeConvProofs
 import KV.WriteLast
 import KV.Generated.Orders
+import KV.Generated.TypeCases
 /-! # C14 — migration output: import aliases, sets once, deterministic, no write on failure
 
 Property statements only; the proofs are in `KV/ImportsProofs.lean` and `KV/WriteLast.lean`.
@@ -139,6 +140,14 @@ theorem C14_types_total (cur : Option Nat) (pname : Nat → String) (ts : List T
     spelled `store_1`, and the result denotes the type it was made from -/
 example : (TConv.render (some 0) (fun _ => "store") TC.empty TConv.exTy).map (fun r => (r.1.imports, TConv.exStr r.2)) =
     some ([(2, "store_1"), (1, "store")], "map[store.N0]func(store_1.N1[store.N0];int)") := by rfl
+
+/-- `TypeToExpr` has a case of its own for every kind of `types.Type` a value can have (regenerated from the type switch
+    of typeconv.go; `Tuple`, `Union` and `TypeParam` are not types of values of a non-generic declaration): nothing falls
+    through to the default branch, which spells a type with `t.String()` — full package paths (the defect repaired by
+    67e0897 was two missing cases here) -/
+theorem C14_type_kinds_covered :
+    (["Named", "Alias", "Pointer", "Slice", "Array", "Map", "Chan", "Signature", "Struct", "Interface", "Basic"].all (fun k => Gen.typeToExprCases.contains k)) = true ∧
+    Gen.typeToExprDefault = "ast.NewIdent(t.String())" := by decide
 
 end C14
 
